@@ -68,6 +68,31 @@ impl EnumDefinition {
     }
 }
 
+/// The inclusive range of values that can be stored in the given integer base type,
+/// or `None` if the base type is not a predefined integer type. A value is stored by
+/// its bit pattern (`-2` in a `u32` enum is `0xFFFF_FFFE`), so for a type of N bits this
+/// is the union of the signed and unsigned N-bit ranges.
+fn discriminant_range(ty: &Type, size: usize) -> Option<(i128, i128)> {
+    let Type::Raw(path) = ty else {
+        return None;
+    };
+    if path.len() != 1 {
+        return None;
+    }
+    let is_integer = matches!(
+        path.last()?.as_str(),
+        "u8" | "u16" | "u32" | "u64" | "u128" | "i8" | "i16" | "i32" | "i64" | "i128"
+    );
+    let bits = u32::try_from(size.checked_mul(8)?).ok()?;
+    if !is_integer || bits == 0 {
+        return None;
+    }
+    if bits >= 128 {
+        return Some((i128::MIN, i128::MAX));
+    }
+    Some((-(1i128 << (bits - 1)), (1i128 << bits) - 1))
+}
+
 pub fn build(
     semantic: &SemanticState,
     resolvee_path: &ItemPath,
@@ -105,6 +130,13 @@ pub fn build(
             ),
             None => last_field,
         };
+        if let Some((min, max)) = discriminant_range(&ty, size) {
+            if (value as i128) < min || (value as i128) > max {
+                anyhow::bail!(
+                    "value {value} of case `{name}` of enum `{resolvee_path}` does not fit in the enum's type `{ty}`"
+                );
+            }
+        }
         fields.push((name.0.clone(), value));
 
         for attribute in attributes {
